@@ -104,7 +104,7 @@ def check(run):
     i = 0
     while len(units) < want:
         i += 1
-        s = strgen.build(r, "D%d" % i, ["EnumString", "Display"], n=r.choice([1, 2, 3, 4, 6]), generics_pool=(None, None, "T", "N"), allow_prefix=True)
+        s = strgen.build(r, "D%d" % i, ["EnumString", "Display"], n=r.choice([1, 2, 3, 4, 6]), generics_pool=(None, None, "T", "N", "NT", "Tnd"), allow_prefix=True)
         dv = [v for v in s.variants if v.default and not v.disabled]
         if not dv:
             # force one
